@@ -416,7 +416,7 @@ def step (fields : List String) : String :=
       encStr dOut ++ "\t" ++ TalIO.encVars dCtx.locals ++ "\t" ++ TalIO.encVars dCtx.globals ++ "\t" ++ toString dCtx.localStack.length
   | ["talmetal", allowPy, globals, macros, nodes] =>
     -- macro expansion (Model/Metal) into a plain TAL tree, then the machine and the denotation on that tree
-    let t := Tal.expandTemplate (TalIO.parseMacros macros) 12 (TalIO.parseMNodes nodes)
+    let t := Tal.expandTemplate (TalIO.parseMacros macros) 64 (TalIO.parseMNodes nodes)
     let g := match TalIO.parseVal globals with | .map m => m | _ => []
     let ctx : Tal.Ctx := { globals := g, allowPython := decBool allowPy }
     let py : Str → Tal.Val := fun _ => .str (lit "PYTHON-ORACLE")
